@@ -214,9 +214,13 @@ class Expander:
         prefix = "%s__%d__" % (fn.name.strip("_") or "h", self.count)
         ren = {nm: prefix + nm for nm in _locals_of(fn)}
         pre = []
+        stored = {n.id for n in _own_nodes(fn) if isinstance(n, ast.Name) and isinstance(n.ctx, (ast.Store, ast.Del))}
         for p_, v in binding:
             if p_ in ("self", "cls") and isinstance(v, ast.Name) and v.id == p_:
                 ren.pop(p_, None)           # same object under the same name
+                continue
+            if isinstance(v, ast.Name) and p_ not in stored:
+                ren[p_] = v.id              # the helper only reads its parameter: it IS the caller's variable (no alias to track)
                 continue
             pre.append(ast.copy_location(ast.Assign([ast.Name(ren[p_], ast.Store())], copy.deepcopy(v), lineno=loc.lineno), loc))
         ret = prefix + "result"
